@@ -225,6 +225,49 @@ func init() {
 }
 
 func init() {
+	debugHooks["loops"] = func(w *World, args []string) {
+		// loops <funcKey-regexp>: the loop ordinals used by `invariant n:` / `iteration n:` with the source line of each header
+		re := regexp.MustCompile(args[0])
+		var keys []string
+		for k, f := range w.Funcs {
+			if w.InModule(f) && re.MatchString(k) {
+				keys = append(keys, k)
+			}
+		}
+		sort.Strings(keys)
+		for _, k := range keys {
+			f := w.Funcs[k]
+			v := NewFnVC(w, f)
+			loops := v.findLoops(f)
+			var hs []int
+			for h := range loops {
+				hs = append(hs, h)
+			}
+			sort.Ints(hs)
+			for _, h := range hs {
+				li := loops[h]
+				line := 0
+				for _, ins := range li.header.Instrs {
+					if ins.Pos().IsValid() {
+						line = w.Fset.Position(ins.Pos()).Line
+						break
+					}
+				}
+				if line == 0 {
+					for _, b := range f.Blocks {
+						if li.body[b.Index] {
+							for _, ins := range b.Instrs {
+								if ins.Pos().IsValid() && (line == 0 || w.Fset.Position(ins.Pos()).Line < line) {
+									line = w.Fset.Position(ins.Pos()).Line
+								}
+							}
+						}
+					}
+				}
+				fmt.Printf("%s loop%d header=b%d line~%d (%s)\n", k, li.ordinal, h, line, li.header.Comment)
+			}
+		}
+	}
 	debugHooks["where"] = func(w *World, args []string) {
 		re := regexp.MustCompile(args[0])
 		var keys []string
